@@ -22,6 +22,10 @@ CHECKS = {
          "Every multiset of up to 3 pipeline end kinds x threshold pairs (full square for <=2 pipelines, boundary pairs for 3) x cancellation mode is run under every schedule within the bound; Status ids, sink sub-multiset, warning identity, completes+warnings=pipelines, the iff-direction of the error and errors.Is(ctx.Err()) are checked on each execution. The setter/getter contract is decided by BFS over all call histories up to depth 4 (6 thorough) on two event types.",
          "The traversal ends used by the oracle are reconstructed from the nodes' own log (C01 matching).",
          "DESIGN.md §3 C02"),
+ "C12": ("stateless model checking under a controlled scheduler with a faithful writer-preferring RWMutex model; deadlock verdict over re-entrancy scenarios",
+         "166 scenarios - every Broker call x a node that re-enters Send from Process/Close/Reopen, and the real gated.Filter wired to the same Broker with 0..3 pending groups, x {alone, concurrent writer, concurrent Send, concurrent remover} - are run under every schedule within the preemption bound. Self-deadlock on the Broker lock, reader recursion behind a waiting writer and lock-order inversions are deterministic verdicts with the blocked threads' stacks instead of test timeouts. Three genuine defects are recorded as known findings; any other deadlock still fails the check.",
+         "RWMutex model mirrors sync.RWMutex (writer announces, then drains readers; announced writer blocks new readers); termination = every thread finishes in every explored schedule.",
+         "DESIGN.md §3 C12"),
 }
 
 NOT_YET = "check not built yet in this session (work in progress; see DESIGN.md for the plan)"
